@@ -2,7 +2,7 @@
 import p_recv
 from vlib import Broken, Verdict
 
-JUDGE = ("type", "content", "target", "perm", "mtime", "extra", "lit")
+JUDGE = ("type", "content", "target", "perm", "mtime", "dmtime", "extra", "lit")
 
 
 def sig(o, s):
@@ -47,5 +47,5 @@ def check(w):
                 "non-trivial = the same scenario without -n (also run) changes the destination",
         "action_coverage": cov, "negative_controls": nneg, "worker_crashes": counts.get("crashed", 0),
     }
-    v.assumptions = ["snapshot compares type, content, link target, permissions and file mtimes of every path of the universe, plus any stray entry"]
+    v.assumptions = ["snapshot compares type, content, link target, permissions, file and directory mtimes of every path of the universe, plus any stray entry"]
     return v.finish()
